@@ -28,6 +28,8 @@ from bounded.programs import (
     fingerprint,
     is_f,
     kind_of,
+    raise_if_gen_crash,
+    safe_case,
 )
 
 CONTRACTS = {
@@ -169,6 +171,11 @@ def _desc(contract, g, nprefix, t, tag):
     return {"contract": contract, "program": g.program(), "sync_at": {"nprefix": nprefix, "slot": t}, "gen": tag}
 
 
+def _focus_on(g, t):
+    g.focus = {t}
+    g.metas[t]["taint"] = True
+
+
 def gen_cases(tier, seed):
     tnum = 0 if tier == "quick" else 1
     kinds = ["plain", "plain", "plain", "fused", "square", "herm", "ones", "rank0", "solve_rhs", "derived", "derived"]
@@ -176,14 +183,18 @@ def gen_cases(tier, seed):
     # (1) sync
     n = 1500 if tier == "quick" else 30000
     for k in range(n):
-        rng = np.random.default_rng([seed, tnum, 1, k])
-        sym = syms[k % 5]
-        out = lazy_prefix(rng, sym, bool(rng.integers(0, 2)), kinds[int(rng.integers(0, len(kinds)))],
-                          "complex128" if rng.random() < 0.15 else "float64")
-        if out is None:
-            continue
-        g, t = out
-        yield _desc("C09.sync", g, len(g.steps), t, [tier, seed, "sync", k])
+        tag = [tier, seed, "sync", k]
+
+        def make(k=k, tag=tag):
+            rng = np.random.default_rng([seed, tnum, 1, k])
+            out = lazy_prefix(rng, syms[k % 5], bool(rng.integers(0, 2)), kinds[int(rng.integers(0, len(kinds)))],
+                              "complex128" if rng.random() < 0.15 else "float64")
+            if out is None:
+                return None
+            g, t = out
+            return _desc("C09.sync", g, len(g.steps), t, tag)
+
+        yield from safe_case("C09.sync", tag, make)
     # (2) targeted single operations (optionally followed by a second one)
     reps = 2 if tier == "quick" else 20
     k = 0
@@ -194,68 +205,77 @@ def gen_cases(tier, seed):
                     continue
                 for op in TARGET_OPS:
                     k += 1
-                    rng = np.random.default_rng([seed, tnum, 2, k])
-                    kind = PREFIX_FOR.get(op, "plain")
-                    if op == "solve" and rng.random() < 0.5:
-                        kind = "solve_rhs"
-                    if kind == "plain" and rng.random() < 0.25:
-                        kind = "derived"
-                    out = lazy_prefix(rng, sym, static, kind)
-                    if out is None:
-                        continue
-                    g, t = out
-                    npre = len(g.steps)
-                    g.focus = {t}
-                    g.metas[t]["taint"] = True
-                    if not g.try_op(op) and not g.try_op(op):
-                        continue
-                    if rep % 2 == 1 and not g.dead:
-                        g.random_step(OP_WEIGHTS)
-                    yield _desc("C09.op_equal", g, npre, t, [tier, seed, "single", k, op])
+                    tag = [tier, seed, "single", k, op]
+
+                    def make(k=k, op=op, sym=sym, static=static, rep=rep, tag=tag):
+                        rng = np.random.default_rng([seed, tnum, 2, k])
+                        kind = PREFIX_FOR.get(op, "plain")
+                        if op == "solve" and rng.random() < 0.5:
+                            kind = "solve_rhs"
+                        if kind == "plain" and rng.random() < 0.25:
+                            kind = "derived"
+                        out = lazy_prefix(rng, sym, static, kind)
+                        if out is None:
+                            return None
+                        g, t = out
+                        npre = len(g.steps)
+                        _focus_on(g, t)
+                        if not g.try_op(op) and not g.try_op(op):
+                            return None
+                        if rep % 2 == 1 and not g.dead:
+                            g.random_step(OP_WEIGHTS)
+                        return _desc("C09.op_equal", g, npre, t, tag)
+
+                    yield from safe_case("C09.op_equal", tag, make)
     # (2') random pairs
     n = 3000 if tier == "quick" else 60000
     for k in range(n):
-        rng = np.random.default_rng([seed, tnum, 3, k])
-        sym = syms[k % 5]
-        out = lazy_prefix(rng, sym, bool(rng.integers(0, 2)), kinds[int(rng.integers(0, len(kinds)))],
-                          "complex128" if rng.random() < 0.1 else "float64")
-        if out is None:
-            continue
-        g, t = out
-        npre = len(g.steps)
-        g.focus = {t}
-        g.metas[t]["taint"] = True
-        for _ in range(2):
-            if g.dead or g.random_step(OP_WEIGHTS) is None:
-                break
-        if len(g.steps) == npre:
-            continue
-        yield _desc("C09.op_equal", g, npre, t, [tier, seed, "pair", k])
+        tag = [tier, seed, "pair", k]
+
+        def make(k=k, tag=tag):
+            rng = np.random.default_rng([seed, tnum, 3, k])
+            out = lazy_prefix(rng, syms[k % 5], bool(rng.integers(0, 2)), kinds[int(rng.integers(0, len(kinds)))],
+                              "complex128" if rng.random() < 0.1 else "float64")
+            if out is None:
+                return None
+            g, t = out
+            npre = len(g.steps)
+            _focus_on(g, t)
+            for _ in range(2):
+                if g.dead or g.random_step(OP_WEIGHTS) is None:
+                    break
+            if len(g.steps) == npre:
+                return None
+            return _desc("C09.op_equal", g, npre, t, tag)
+
+        yield from safe_case("C09.op_equal", tag, make)
     # (3) applied exactly once
     n = 1500 if tier == "quick" else 30000
     for k in range(n):
-        rng = np.random.default_rng([seed, tnum, 4, k])
-        sym = syms[k % 5]
-        out = lazy_prefix(rng, sym, bool(rng.integers(0, 2)), "plain" if rng.random() < 0.8 else "fused")
-        if out is None:
-            continue
-        g, t = out
-        npre = len(g.steps)
-        g.focus = {t}
-        g.metas[t]["taint"] = True
-        # the chain continues from the subject: make it the latest array
-        if g.slots("arr")[-1] != t:
-            g.emit(["copy", t, {}])
-        g.chain = True
-        only_transposes = rng.random() < 0.4
-        for _ in range(int(rng.integers(1, 7))):
-            if g.dead:
-                break
-            name = g.random_step({"transpose": 5, "copy": 1} if only_transposes else CHAIN_WEIGHTS)
-            if name == "fuse" and not g.dead:
-                # round trip
-                g.try_op("unfuse_all" if rng.random() < 0.5 else "unfuse")
-        yield _desc("C09.applied_once", g, npre, t, [tier, seed, "chain", k])
+        tag = [tier, seed, "chain", k]
+
+        def make(k=k, tag=tag):
+            rng = np.random.default_rng([seed, tnum, 4, k])
+            out = lazy_prefix(rng, syms[k % 5], bool(rng.integers(0, 2)), "plain" if rng.random() < 0.8 else "fused")
+            if out is None:
+                return None
+            g, t = out
+            npre = len(g.steps)
+            _focus_on(g, t)
+            # the chain continues from the subject: make it the latest array
+            if g.slots("arr")[-1] != t:
+                g.emit(["copy", t, {}])
+            g.chain = True
+            only_transposes = rng.random() < 0.4
+            for _ in range(int(rng.integers(1, 7))):
+                if g.dead:
+                    break
+                name = g.random_step({"transpose": 5, "copy": 1} if only_transposes else CHAIN_WEIGHTS)
+                if name == "fuse" and not g.dead:
+                    g.try_op("unfuse_all" if rng.random() < 0.5 else "unfuse")   # round trip
+            return _desc("C09.applied_once", g, npre, t, tag)
+
+        yield from safe_case("C09.applied_once", tag, make)
 
 
 # ----------------------------------------------------------------------------
@@ -409,6 +429,7 @@ def check_sync(x, fails, feats):
 
 
 def check_case(d):
+    raise_if_gen_crash(d)
     prog = d["program"]
     npre, t = d["sync_at"]["nprefix"], d["sync_at"]["slot"]
     contract = d["contract"]
